@@ -5,6 +5,7 @@
   property, for every function and oracle.  The assembly algorithm of `translate_function_extended` is not modelled.
 -/
 import FalconModel.FnRec
+import FalconProofs.Props.C06Asm
 
 namespace Falcon.C06
 open Falcon Falcon.FnRec
@@ -57,5 +58,46 @@ theorem addressesOnce_sound (f : Function) (oracle : List (Nat × (BTR ⊕ Strin
     cases v with
     | inr s => simp [hl] at this
     | inl r => exact ⟨r, rfl, by simpa [hl] using this⟩
+
+
+-- ------------------------------------------------------------------------------------------------
+-- the assembly algorithm of `translate_function_extended` (model FalconModel/Assemble.lean; statements and
+-- proofs in FalconProofs/Props/C06Asm.lean, restated here so that the audit lists them)
+
+open Falcon.CfgEdit Falcon.Assemble in
+/-- whenever the assembly returns a function, its graph satisfies C15's `WF` (no edge, entry or exit refers to a
+    missing block, keys unique) -/
+theorem asm_wf {tb : List (Nat × BTR)} {manual : List ManualEdge} {fnAddr : Nat} {f : Function}
+    (hg : C06Asm.GraphsWF tb) (h : assemble tb manual fnAddr = .ok f) : WF f.cfg :=
+  C06Asm.asm_wf hg h
+
+open Falcon.CfgEdit Falcon.Assemble in
+/-- the entry of the returned function is the entry `insert` returned for the instruction graph logged at the
+    address of the first instruction of the result at the function address -/
+theorem asm_entry {tb : List (Nat × BTR)} {manual : List ManualEdge} {fnAddr : Nat} {f : Function}
+    (hg : C06Asm.GraphsWF tb) (hn : (tb.map (·.1)).Nodup) (h : assemble tb manual fnAddr = .ok f)
+    {r : BTR} (hr : (fnAddr, r) ∈ tb) {g : Function} {gs : List Function} (hi : r.instrs = g :: gs) :
+    ∃ st en ex, assembleCore tb manual = .ok st ∧ st.instrIdx.lookup g.addr = some (en, ex) ∧
+      f.cfg.entry = some en ∧ f.cfg.hasBlock en = true :=
+  C06Asm.asm_entry hg hn h hr hi
+
+open Falcon.CfgEdit Falcon.Assemble in
+/-- each instruction address is inserted exactly once: the log of `insert` calls is duplicate-free, covers exactly
+    the instruction addresses of the results, and each entry is the result of one `insert` of a graph at that address -/
+theorem asm_once {tb : List (Nat × BTR)} {manual : List ManualEdge} {st : AsmState}
+    (h : assembleCore tb manual = .ok st) :
+    (st.instrIdx.map (·.1)).Nodup ∧
+    (∀ a, a ∈ st.instrIdx.map (·.1) ↔ ∃ p ∈ tb, ∃ g ∈ p.2.instrs, g.addr = a) ∧
+    (∀ a en ex, (a, (en, ex)) ∈ st.instrIdx →
+      ∃ p ∈ tb, ∃ g ∈ p.2.instrs, g.addr = a ∧ ∃ c0 c1, CfgEdit.insert c0 g.cfg = ⟨c1, .ok (en, ex)⟩) :=
+  C06Asm.asm_once h
+
+open Falcon.CfgEdit Falcon.Assemble in
+/-- the final `merge` keeps the language of the assembled graph -/
+theorem asm_lang {tb : List (Nat × BTR)} {manual : List ManualEdge} {fnAddr : Nat} {f : Function}
+    (hg : C06Asm.GraphsWF tb) (h : assemble tb manual fnAddr = .ok f) :
+    ∃ st be bx, assembleCore tb manual = .ok st ∧ st.blockIdx.lookup fnAddr = some (be, bx) ∧
+      ∀ w, Lang f.cfg w ↔ Lang { st.cfg with entry := some be } w :=
+  C06Asm.asm_lang hg h
 
 end Falcon.C06
